@@ -44,6 +44,13 @@ Definition overhead : N := 28.         (* crypto.EncryptionOverhead = NonceSize 
 
 Definition blen (b : bytes) : N := N.of_nat (length b).
 
+(** [protocol.Frame.Encode] / [FrameWriter.Write]: the only way any frame of any
+    type reaches a peer.  Result: number of bytes written, [None] = refused
+    (ErrFrameTooLarge, nothing is written). *)
+Definition header_size : N := 14.
+Definition frame_write (payload_len : N) : option N :=
+  if max_payload <? payload_len then None else Some (header_size + payload_len).
+
 (** * Cutting a length into consecutive ranges of at most [m] *)
 
 (** [ranges_fuel fuel m off rem]: the [(offset, length)] ranges that the Go
